@@ -313,6 +313,12 @@ impl HCtx {
             "gcvq" => ("gcv", format!("/v1/client/get-child-version/{segs}?x=%2F&y")),
             "asq" => ("as", format!("/v1/client/add-snapshot/{segs}?")),
             "snapq" => ("snap", "/v1/client/snapshot?client=other".to_string()),
+            // the same routes with an unreserved character of the fixed part percent-encoded (routing
+            // works on the decoded path)
+            "avp" => ("av", format!("/v1/clien%74/add-version/{segs}")),
+            "gcvp" => ("gcv", format!("/v%31/client/get-child-version/{segs}")),
+            "asp" => ("as", format!("/v1/%63lient/add-snapshot/{segs}")),
+            "snapp" => ("snap", "/%761/client/snapshot".to_string()),
             "unknown1" => ("unknown", "/v1/client/nope".to_string()),
             "unknown2" => ("unknown", format!("/v1/client/add-version/{segs}/extra")),
             "unknown3" => ("unknown", "/v2/client/snapshot".to_string()),
